@@ -1,13 +1,16 @@
 """C07 — gate modifiers (dagger, controlled, power, exp) mean what they say.
 
 A RUN is a base gate plus a chain of modifier METHOD calls applied one after the other:
-  {"base": <base spec>, "chain": [["dagger"], ["controlled", n], ["power", "p/q"(, "f")], ["exp"], ["replace", [params]] ...],
+  {"base": <base spec>, "chain": [["dagger"], ["controlled", n(, TAG)], ["power", "p/q"(, TAG)], ["exp"], ["replace", [params]] ...],
    "order": "fwd"|"rev", "share": "none"|"base"|"all", "reread": bool, "decoy": bool, "recheck": bool}      (see `run_one`)
-base spec:  {"gate": NAME, "params": [[ch, sh] | {"pi": "p/q"}, ...]}       built-in at rational half-angle points / at exactly p*pi/q
-            {"custom": name, "rows": [[entry]], "nsyms": k, "params": [{"v": [re, im]} | {"x": NAME}, ...], "symflags": [...]}
+   TAG names the Python NUMBER TYPE that carries the exponent / control count (int, float, fractions.Fraction, sympy Integer /
+   Rational / Float, numpy integer scalars, bool for one control): see "the NUMBER TYPE that carries a numeric argument" below
+base spec:  {"gate": NAME, "params": [[ch, sh] | {"pi": "p/q"} | {"ty": "sF", "a": [ch, sh]} | {"ty": TAG, "r": "p/q"}, ...]}
+                        built-in at rational half-angle points / at exactly p*pi/q / the same float as sympy.Float / the angle p/q in type TAG
+            {"custom": name, "rows": [[entry]], "nsyms": k, "params": [{"v": [re, im](, "ty": TAG)} | {"x": NAME}, ...], "symflags": [...]}
                         entry = [re, im] constant | {"sym": i} | {"x": NAME} (a scalar of XTAB: a number whose nature is not
                         visible syntactically) | {"xp": [NAME, ...]} (product) | {"xs": "m1pow"|"expipi", "sym": i} ((-1)**p_i, exp(I pi p_i))
-A CASE is either one run ({"kind": "chain"|"malformed"|"exotic"|"special", ...run fields}) or a SESSION
+A CASE is either one run ({"kind": "chain"|"malformed"|"exotic"|"special"|"syntax"|"numtype", ...run fields}) or a SESSION
 ({"kind": "session"|"session-ext", "runs": [run, ...]}): several runs executed one after the other in the same process on shared
 prototypes / gate definitions / (per `share`) gate objects.  Sessions exist because the property quantifies over gates, i.e.
 values: whatever the library remembers between calls (module-level or per-object caches, shared result objects, objects updated
@@ -34,7 +37,8 @@ RULE = ("random modifier chains (depth 0..4: dagger / controlled(1..3) / integer
         "optionally with symbols); exp and non-integer powers only while the total is <= 2 qubits; SESSIONS = a seed run, 2-4 "
         "sibling runs that differ from it in exactly one component (other gate under the same parameters / same custom name with "
         "one matrix entry changed / one parameter changed, negated, shifted by 2 pi or by a relative 1e-6 / one modifier argument "
-        "changed / one modifier inserted, removed, exchanged / int exponent handed over as float) and the seed run again, all in "
+        "changed / one modifier inserted, removed, exchanged / ONE numeric argument -- exponent, control count, parameter -- handed over in another "
+        "number type) and the seed run again, all in "
         "one process on shared prototypes, definitions and (share=base|all) gate objects, matrices read stepwise (fwd) or only "
         "after all gates were made, outermost first (rev), optional decoy call of the same method with another argument before "
         "every modifier call; every matrix the library returns is edited in place after it was recorded and the last (or every) "
@@ -47,7 +51,19 @@ RULE = ("random modifier chains (depth 0..4: dagger / controlled(1..3) / integer
         "symbols with real/positive/complex assumptions) and built-ins at exact sympy multiples of pi, two chains per base: one "
         "whose FIRST modifier is dealt round-robin over dagger / power -n / exp / controlled / power 1/q / power n / replace, one "
         "from a pattern list or random -- the model answers when every value lies in Q(zeta8), else the case is oracle-only; plus a "
-        "malformed stream (control counts <= 0, wrong parameter arity, negative powers of singular matrices). non-trivial: chain "
+        "malformed stream (control counts <= 0, wrong parameter arity, negative powers of singular matrices). "
+        "NUMBER TYPES = every numeric argument of the modifier API is drawn from a type ladder (exponents: int / float / "
+        "fractions.Fraction / sympy.Integer / sympy.Rational / sympy.Float / numpy int64, int32, int16, int8, uint8, each at "
+        "negative, zero, positive whole values incl. whole-valued Fraction(3, 1) / Float(2.0), and Fraction / Rational / Float / "
+        "float at 1/q; control counts: int / True / numpy integers / sympy.Integer; parameters of the base gate and of "
+        "replace_params: float / sympy.Float of the same float / int, float, Fraction, sympy Integer, Rational, Float at the "
+        "angle p/q / custom values as float, int, Fraction, sympy Integer, sympy Float, complex, numpy ints): (a) in the chain / "
+        "special / exotic streams and in the seed runs of the sessions every such argument is retyped with probability 0.25-0.5, "
+        "(b) a NUMTYPE stream holds each (route, type) cell once per run -- routes = which method of which wrapper receives or "
+        "passes on the typed argument: power of dagger / of controlled / of power / of exp, Power.controlled / .dagger / .power / "
+        ".exp / .replace_params, controlled of dagger / power / root / exp / controlled, ControlledGate.dagger / .power / "
+        ".replace_params / .exp, replace_params of Dagger / ControlledGate / Power / Exponential and deeper nestings. "
+        "non-trivial: chain "
         "of >= 2 modifiers, or a session of >= 3 runs; distinct = distinct canonical JSON of the case")
 TRUSTED = [
     "sympy Matrix.inv: M * inv(M) = 1 (hypothesis `ExtLaws.inv_*`; the model's own inverse is exact Gauss-Jordan over Q(zeta8) and is compared with sympy on every negative power)",
@@ -55,11 +71,29 @@ TRUSTED = [
     "sympy Matrix.exp is the matrix exponential (hypothesis `ExtLaws.exp`; compared with scipy.linalg.expm on every generated exp)",
     "sympy Matrix.adjoint / Matrix.diag / integer ** are conjugate transpose / block diagonal / repeated product (compared entrywise with the exact model)",
     "scipy.linalg.expm / fractional_matrix_power (principal branch) are used only to fill the model's external table; float tolerance 1e-8 relative",
+    "the constructors of the number types of the ladders (fractions.Fraction, sympy.Integer / Rational / Float, numpy.int64 ... "
+    "uint8, float, complex) produce the value named in the case (the values are small integers, unit fractions, dyadic "
+    "rationals; floats are the nearest doubles)",
 ]
 ASSUMPTIONS = [
     "parameters are numbers (no free symbols): Power/Exponential reject symbolic gates in __post_init__, bind is property C06",
     "a gate 'obtained by nesting modifiers' is built by the modifier METHODS (.dagger/.controlled/.power/.exp), not by calling the wrapper class constructors directly",
-    "exponents are Python ints or floats p/q (an integer may arrive as a float, 2.0); only integers and unit fractions are in the property's domain",
+    "only integers and unit fractions are in the property's domain as exponent VALUES; the value may arrive in any number type "
+    "which the unchanged library accepts and treats correctly (established by probing every type on every route): int, float, "
+    "fractions.Fraction, sympy Integer / Rational / Float, numpy signed / unsigned integer scalars (whole values, within the "
+    "type's range) -- NOT in the domain, because the unchanged library (sympy below it) raises on them in this environment: bool "
+    "and numpy.bool_ exponents / parameters (TypeError: BooleanAtom not allowed), every numpy FLOATING scalar as exponent or "
+    "parameter (sympy 1.x cannot sympify numpy-2 floats: ValueError in mpmath), float / Decimal control counts (sympy.eye(6.0)), "
+    "numpy integers and Decimals as parameters of those built-in gates that halve the angle or multiply it by a complex; "
+    "Decimal / complex exponents and Fraction control counts are accepted by the unchanged library but are not number types "
+    "for a real exponent / a count (not numbers.Real / numbers.Integral), so a library that rejects them would be within the "
+    "property: not generated",
+    "control counts are integers >= 1 in any numbers.Integral type: int, bool (True = one control), numpy integers, sympy.Integer",
+    "the model is asked about VALUES (its exponent is a rational, its count a natural number): the Python type that carries a "
+    "number is not modelled, every rung of a type ladder is sent to the model as the same request; `the same parameters` is "
+    "judged by value as well (0.75 reported where Fraction(3, 4) went in is the same parameter)",
+    "built-in angles given as the number p/q itself (int / Fraction / sympy Rational ...) are not rational points of the "
+    "circle: such runs are oracle-only (modifier sentences relative to the base matrix, replace_params route agreement)",
     "a gate is a value: 'its matrix' / 'its parameters' do not depend on which other gates were built or inspected before in the "
     "same process, on how often they were asked for, or on what the caller did to an earlier answer (this is what the sessions, "
     "the decoy calls and the in-place edits of returned matrices test; the property's sentences are then evaluated per run)",
@@ -199,20 +233,151 @@ def _gauss_expr(e):
     return sympy.Rational(str(unrat(e[0]))) + sympy.I * sympy.Rational(str(unrat(e[1])))
 
 
+# ------------------------------------------------------------------ the NUMBER TYPE that carries a numeric argument
+# The property quantifies over VALUES (integer and unit-fraction exponents, control counts >= 1, real / complex parameters).  A
+# value reaches the library inside some Python number type, and the library (and sympy below it) may branch on that type.  Every
+# numeric argument of the modifier API is therefore drawn from a TYPE LADDER; the tag names the type, the value stays exact in the
+# case.  The ladders hold exactly the types which the UNCHANGED library accepts and treats correctly in this environment
+# (established by probing every rung on every route, see ASSUMPTIONS): rejected there -- hence outside the domain -- are bool /
+# numpy.bool_ exponents and parameters (sympy: "BooleanAtom not allowed"), every numpy FLOATING scalar (this sympy cannot
+# sympify them under numpy 2: ValueError from mpmath), float-typed control counts (sympy.eye refuses 6.0), numpy integers as
+# parameters of the built-in rotations (theta / 2 becomes a numpy float).
+#   exponent tags   i int | f float | F fractions.Fraction | sI sympy.Integer | sR sympy.Rational | sF sympy.Float |
+#                   n64 n32 n16 n8 nu8 numpy integer scalars            (no tag: int for whole values, float otherwise)
+#   count tags      i int | b bool (True = one control) | n64 n32 n16 n8 nu8 | sI sympy.Integer
+#   parameter tags  built-in: {"ty": "sF", "a": [ch, sh]} = sympy.Float of the float the untagged spec stands for;
+#                             {"ty": i|f|F|sI|sR|sF, "r": "p/q"} = the angle p/q (radians) itself in that type (not a rational
+#                             point of the circle: oracle-only unless it is 0)
+#                   custom:   {"v": [re, im], "ty": f|i|F|sI|sF|c|n64|n32} (f i F sI n*: real values only; c = python complex)
+EXP_TAGS_WHOLE = ["i", "f", "F", "sI", "sF", "n64", "n32", "n16", "n8", "nu8"]
+EXP_TAGS_FRAC = ["f", "F", "sR", "sF"]
+CTL_TAGS = ["i", "b", "n64", "n32", "n16", "n8", "nu8", "sI"]
+NP_INT_TAGS = ["n64", "n32", "n16", "n8", "nu8"]
+BUILTIN_R_TAGS = ["i", "f", "F", "sI", "sR", "sF"]
+CUSTOM_V_TAGS_REAL = ["f", "i", "F", "sI", "sF", "c", "n64", "n32"]
+CUSTOM_V_TAGS_EXACT = ["i", "F", "sI", "n64", "n32"]  # keep the matrix exact (sympy's exp / roots of Float matrices mostly fail)
+_NP_RANGE = {"n64": (-2 ** 63, 2 ** 63 - 1), "n32": (-2 ** 31, 2 ** 31 - 1), "n16": (-2 ** 15, 2 ** 15 - 1), "n8": (-128, 127), "nu8": (0, 255)}
+_NP_NAME = {"n64": "int64", "n32": "int32", "n16": "int16", "n8": "int8", "nu8": "uint8"}
+
+
+def _typed_real(f, tag):
+    """the rational f in the Python number type named by tag (the tag must be able to hold it: see the eff_* functions)"""
+    import numpy
+    import sympy
+    f = Fraction(f)
+    if tag == "i":
+        return int(f)
+    if tag == "b":
+        return bool(f)
+    if tag == "f":
+        return float(f)
+    if tag == "F":
+        return Fraction(f.numerator, f.denominator)
+    if tag == "sI":
+        return sympy.Integer(int(f))
+    if tag == "sR":
+        return sympy.Rational(f.numerator, f.denominator)
+    if tag == "sF":
+        return sympy.Float(float(f))
+    if tag in _NP_NAME:
+        return getattr(numpy, _NP_NAME[tag])(int(f))
+    raise ValueError(f"unknown number type tag {tag!r}")
+
+
+def _whole_tag_ok(f, tag):
+    return f.denominator == 1 and (tag not in _NP_RANGE or _NP_RANGE[tag][0] <= f <= _NP_RANGE[tag][1])
+
+
+def eff_exp_tag(e, tag=None):
+    """the type that actually carries exponent e: the requested tag where it can hold the value, else the nearest rung"""
+    f = unrat(e)
+    if tag in (None, "i"):
+        return "i" if f.denominator == 1 else "f"
+    if tag in ("f", "F", "sF", "sR"):
+        return tag
+    if tag == "sI":
+        return "sI" if f.denominator == 1 else "sR"
+    if tag in _NP_RANGE:
+        return tag if _whole_tag_ok(f, tag) else ("n64" if f.denominator == 1 else "F")
+    raise ValueError(f"unknown exponent tag {tag!r}")
+
+
+def eff_ctl_tag(k, tag=None):
+    if tag in (None, "i") or k < 1:
+        return "i"
+    if tag == "b":
+        return "b" if k == 1 else "i"
+    if tag == "sI":
+        return "sI"
+    if tag in _NP_RANGE:
+        return tag if _whole_tag_ok(Fraction(k), tag) else "n64"
+    raise ValueError(f"unknown control-count tag {tag!r}")
+
+
+def eff_custom_tag(p):
+    """effective type tag of a custom-gate parameter spec {"v": [re, im], "ty": tag} (None = exact sympy Rational + I*Rational)"""
+    tag = p.get("ty")
+    if tag is None or "v" not in p:
+        return None
+    re_, im_ = unrat(p["v"][0]), unrat(p["v"][1])
+    if im_ != 0:
+        return tag if tag in ("c", "sF") else None
+    if tag in ("i", "sI") or tag in _NP_RANGE:
+        return tag if _whole_tag_ok(re_, tag) else "F"
+    return tag
+
+
+def mod_tag(mod):
+    """effective number-type tag of a power / controlled modifier"""
+    if mod[0] == "power":
+        return eff_exp_tag(mod[1], mod[2] if len(mod) > 2 else None)
+    if mod[0] == "controlled":
+        return eff_ctl_tag(mod[1], mod[2] if len(mod) > 2 else None)
+    return None
+
+
 def _custom_param_value(p):
+    import sympy
     if "x" in p:
         return _xexpr(p["x"])
-    return _gauss_expr(p["v"])
+    tag = eff_custom_tag(p)
+    if tag is None:
+        return _gauss_expr(p["v"])
+    re_, im_ = unrat(p["v"][0]), unrat(p["v"][1])
+    if tag == "c":
+        return complex(float(re_), float(im_))
+    if tag == "sF" and im_ != 0:
+        return sympy.Float(float(re_)) + sympy.I * sympy.Float(float(im_))
+    return _typed_real(re_, tag)
+
+
+def _is_typed_angle(a):
+    return isinstance(a, dict) and "ty" in a
+
+
+def _builtin_param_value(a):
+    import sympy
+    if isinstance(a, dict):
+        if "pi" in a:  # the exact sympy number p*pi/q (the gate matrix is then exact: cos(pi/6) = sqrt(3)/2, exp(-I*pi/8) ...)
+            return sympy.pi * sympy.Rational(str(unrat(a["pi"])))
+        if "a" in a:   # the float of the untagged spec, carried by another type
+            if a["ty"] != "sF":
+                raise ValueError(f"angle type {a['ty']!r} cannot carry a float")
+            return sympy.Float(circ.theta_of(a["a"]))
+        r = unrat(a["r"])
+        tag = a["ty"]
+        if tag in ("i", "sI") and r.denominator != 1:
+            tag = "F" if tag == "i" else "sR"
+        return _typed_real(r, tag)
+    return circ.theta_of(a)
 
 
 def py_params(bspec, params):
     """python values handed to the library for a list of parameter specs"""
-    import sympy
     if "gate" in bspec:
         if bspec["gate"] == "Delay":
             return tuple(float(unrat(a[0])) for a in params)
-        # {"pi": "p/q"}: the exact sympy number p*pi/q (the gate matrix is then exact: cos(pi/6) = sqrt(3)/2, exp(-I*pi/8) ...)
-        return tuple((sympy.pi * sympy.Rational(str(unrat(a["pi"])))) if isinstance(a, dict) else circ.theta_of(a) for a in params)
+        return tuple(_builtin_param_value(a) for a in params)
     return tuple(_custom_param_value(p) for p in params)
 
 
@@ -286,9 +451,13 @@ def build_base(bspec, params=None):
     return custom_definition(bspec)(*vals)
 
 
-def py_exponent(e, as_float=False):
-    f = unrat(e)
-    return int(f) if (f.denominator == 1 and not as_float) else float(f)
+def py_exponent(e, tag=None):
+    """the exponent e (exact rational in the case) in the number type named by tag"""
+    return _typed_real(unrat(e), eff_exp_tag(e, tag))
+
+
+def py_count(k, tag=None):
+    return _typed_real(Fraction(k), eff_ctl_tag(k, tag))
 
 
 def apply_mod(g, mod, bspec):
@@ -298,9 +467,9 @@ def apply_mod(g, mod, bspec):
     if t == "exp":
         return g.exp
     if t == "controlled":
-        return g.controlled(mod[1])
+        return g.controlled(py_count(mod[1], mod[2] if len(mod) > 2 else None))
     if t == "power":
-        return g.power(py_exponent(mod[1], len(mod) > 2 and mod[2] == "f"))
+        return g.power(py_exponent(mod[1], mod[2] if len(mod) > 2 else None))
     if t == "replace":
         return g.replace_params(py_params(bspec, mod[1]))
     raise ValueError(mod)
@@ -308,10 +477,20 @@ def apply_mod(g, mod, bspec):
 
 # ------------------------------------------------------------------ canonical description of a real gate object
 def _exp_str(x):
-    if isinstance(x, int) and not isinstance(x, bool):
-        return str(x)
-    f = Fraction(x).limit_denominator(10 ** 6)
-    if float(f) == x:
+    """the VALUE of the exponent a Power object holds, whatever type carries it: "n" / "p/q" (floats: the rational of
+    denominator <= 10^6 they are the double of)"""
+    import numbers
+    if isinstance(x, bool):
+        return repr(x)
+    if isinstance(x, numbers.Rational):  # int, Fraction, numpy integers, sympy Integer / Rational
+        f = Fraction(int(x.numerator), int(x.denominator))
+        return str(f.numerator) if f.denominator == 1 else f"{f.numerator}/{f.denominator}"
+    try:
+        v = float(x)
+        f = Fraction(v).limit_denominator(10 ** 6)
+    except (TypeError, ValueError, OverflowError):
+        return repr(x)
+    if float(f) == v:
         return str(f.numerator) if f.denominator == 1 else f"{f.numerator}/{f.denominator}"
     return repr(x)
 
@@ -360,6 +539,24 @@ def has_fraction(s):
             return True
         s = s["g"]
     return False
+
+
+def _root_order(s):
+    """product of the denominators q of the unit-fraction powers inside a gate structure; None when there is none, when an
+    exponent is not a unit fraction, when an exp sits above a root, or when the product is beyond 10^5"""
+    Q, seen_exp = 1, False
+    while isinstance(s, dict) and "g" in s:
+        if s["t"] == "exp":
+            seen_exp = True
+        if s["t"] == "pow" and "/" in s["e"]:
+            num, den = s["e"].split("/")
+            if num != "1" or seen_exp:
+                return None
+            Q *= int(den)
+        elif s["t"] == "pow" and not s["e"].lstrip("-").isdigit():
+            return None
+        s = s["g"]
+    return Q if 1 < Q <= 10 ** 5 else None
 
 
 def _poison(m):
@@ -452,18 +649,23 @@ def _decoy_mod(mod, bspec):
     t = mod[0]
     if t in ("dagger", "exp"):
         return [t]
-    if t == "controlled":
-        return ["controlled", mod[1] + 1] if mod[1] >= 1 else None
+    if t == "controlled":  # (the decoy argument arrives in the same number type as the real one)
+        return ["controlled", mod[1] + 1] + list(mod[2:]) if mod[1] >= 1 else None
     if t == "power":
         e = unrat(mod[1])
-        return ["power", rat(e + 1)] if e.denominator == 1 else ["power", rat(Fraction(1, e.denominator + 1))]
+        return (["power", rat(e + 1)] if e.denominator == 1 else ["power", rat(Fraction(1, e.denominator + 1))]) + list(mod[2:])
     if t == "replace":
-        ps = [p if isinstance(p, dict) else list(p) for p in mod[1]]
+        ps = [dict(p) if isinstance(p, dict) else list(p) for p in mod[1]]
         if not ps:
             return ["replace", ps]
         if "gate" in bspec:
             if bspec["gate"] == "Delay":
                 ps[0] = [rat(unrat(ps[0][0]) + Fraction(1, 4)), 0]
+            elif isinstance(ps[0], dict) and "r" in ps[0]:
+                ps[0] = dict(ps[0], r=rat(unrat(ps[0]["r"]) + 1))
+            elif isinstance(ps[0], dict) and "a" in ps[0]:
+                a = ps[0]["a"]
+                ps[0] = dict(ps[0], a=[a[0], rat(-unrat(a[1]))] if unrat(a[1]) != 0 else ["3/5", "4/5"])
             elif isinstance(ps[0], dict):
                 ps[0] = {"pi": rat(unrat(ps[0]["pi"]) + Fraction(1, 2))}
             elif unrat(ps[0][1]) != 0:
@@ -471,7 +673,7 @@ def _decoy_mod(mod, bspec):
             else:
                 ps[0] = ["3/5", "4/5"] if unrat(ps[0][0]) != Fraction(3, 5) else ["4/5", "3/5"]
         elif "v" in ps[0]:
-            ps[0] = {"v": [rat(unrat(ps[0]["v"][0]) + 1), ps[0]["v"][1]]}
+            ps[0] = dict(ps[0], v=[rat(unrat(ps[0]["v"][0]) + 1), ps[0]["v"][1]])
         else:
             ps[0] = {"x": "m1^(3/4)" if ps[0]["x"] != "m1^(3/4)" else "sqrt(2)/2"}
         return ["replace", ps]
@@ -683,9 +885,23 @@ def _sentence(t, mod, i, prev, cur, A, B, which):
         return None  # float overflow / total loss of precision (e.g. exp of a matrix with entries ~1e4): not judged
     if t == "dagger":
         if not _close(B, A.conj().T):
-            sig = "power-fraction-dagger" if has_fraction(prev["struct"]) else "dagger-adjoint"
+            sig, extra = "dagger-adjoint", ""
+            if has_fraction(prev["struct"]):
+                # F16 (known finding): the dagger of a root is built as the root of the dagger, which is the adjoint only when no
+                # eigenvalue lies on the branch cut.  What F16 does NOT excuse: with Q = the product of the denominators of the
+                # roots inside the gate, B = A^H implies B^Q = (A^Q)^H, and the library's own construction satisfies this on the
+                # cut as well (root law + the sentences for the gates below; not when an exp sits above a root: exp(R') != exp(R)^H).
+                sig = "power-fraction-dagger"
+                Q = _root_order(prev["struct"])
+                if Q is not None:
+                    with np.errstate(all="ignore"):
+                        L, R = np.linalg.matrix_power(B, Q), np.linalg.matrix_power(A, Q).conj().T
+                    if np.all(np.isfinite(L)) and np.all(np.isfinite(R)) and max(np.abs(L).max(), np.abs(R).max()) < 1e6 \
+                            and not _close(L, R, 1e-6):
+                        sig = "dagger-adjoint"
+                        extra = f" -- and not in the way of the known finding F16 either: its {Q}-th power is not the conjugate transpose of the {Q}-th power of that matrix"
             return (sig, f"step {i}: {which} of {_show(cur['struct'])} is not the conjugate transpose of the matrix of "
-                         f"{_show(prev['struct'])}")
+                         f"{_show(prev['struct'])}{extra}")
     elif t == "controlled":
         k, n = mod[1], prev["nq"]
         d0 = 2 ** n * (2 ** k - 1)
@@ -719,6 +935,30 @@ def _sentence(t, mod, i, prev, cur, A, B, which):
             if np.all(np.isfinite(E)) and np.all(np.isfinite(B)) and not _close(B, E, 1e-7):
                 return ("exp-matrix", f"step {i}: exp {which} is not the matrix exponential of the original")
     return None
+
+
+def _spec_value(p):
+    """a parameter spec without the number type that carries it"""
+    if isinstance(p, dict):
+        if "ty" in p and "a" in p:
+            return ["a", rat(unrat(p["a"][0])), rat(unrat(p["a"][1]))]
+        if "r" in p:
+            return ["r", rat(unrat(p["r"]))]
+        if "v" in p:
+            return ["v", rat(unrat(p["v"][0])), rat(unrat(p["v"][1]))]
+        return p
+    if isinstance(p, (list, tuple)) and len(p) == 2:
+        return ["a", rat(unrat(p[0])), rat(unrat(p[1]))]
+    return p
+
+
+def _params_differ(reported, expected):
+    """`the same parameters` is a statement about values: 0.75 reported where Fraction(3, 4) went in is the same parameter"""
+    if reported == expected:
+        return False
+    if not isinstance(reported, list) or not isinstance(expected, list) or len(reported) != len(expected):
+        return True
+    return [_spec_value(p) for p in reported] != [_spec_value(p) for p in expected]
 
 
 def _oracle_run(case, out):
@@ -756,17 +996,17 @@ def _oracle_run(case, out):
         if t == "replace":
             cur_params = mod[1]
             arity_ok = len(cur_params) == _arity(bspec) or bspec.get("gate") == "Delay"
-        if cur["params"] != cur_params:
+        if _params_differ(cur["params"], cur_params):
             return (t + "-params", f"step {i} {mod}: params {cur['params']}, expected {cur_params}")
         # the same two questions asked again after all later modifier calls were made on these objects
         sa = prev.get("static_again")
-        if i == 0 and sa is not None and (sa["nq"] != prev["nq"] or sa["params"] != prev["params"]):
+        if i == 0 and sa is not None and (sa["nq"] != prev["nq"] or _params_differ(sa["params"], prev["params"])):
             return ("original-changed", f"step {i} {mod}: after the modifier calls the ORIGINAL gate reports num_qubits/params "
                                         f"{sa['nq']}/{sa['params']} (before: {prev['nq']}/{prev['params']})")
         sa = cur.get("static_again")
         if sa is not None and sa["nq"] != want_nq:
             return (t + "-num-qubits", f"step {i} {mod}: num_qubits read again later {sa['nq']}, implied {want_nq}")
-        if sa is not None and sa["params"] != cur_params:
+        if sa is not None and _params_differ(sa["params"], cur_params):
             return (t + "-params", f"step {i} {mod}: params read again later {sa['params']}, expected {cur_params}")
         # ---- matrices
         A, B = prev.get("m"), cur.get("m")
@@ -776,7 +1016,7 @@ def _oracle_run(case, out):
                                              f"(a==b {cur.get('rebuilt_equal')}, b==a {cur.get('rebuilt_equal_rev')}, a!=b {cur.get('rebuilt_unequal')}): "
                                              f"{cur['struct']} vs {cur['rebuilt']['struct']}")
             rb = cur["rebuilt"]
-            if rb["nq"] != cur["nq"] or rb["params"] != cur["params"]:
+            if rb["nq"] != cur["nq"] or _params_differ(rb["params"], cur["params"]):
                 return ("replace-not-equal", f"step {i}: rebuilt gate differs in num_qubits/params")
             for which in ("m", "m2"):
                 Bw = cur.get(which)
@@ -852,7 +1092,14 @@ def _pi_halfangle(pq):
 
 
 def _model_param(p):
+    """the model is asked about VALUES: the number type that carries a parameter / exponent / count is not part of it"""
     if isinstance(p, dict):
+        if "a" in p:    # typed built-in angle: the same float as the untagged half-angle point
+            return [rat(unrat(p["a"][0])), rat(unrat(p["a"][1]))]
+        if "r" in p:    # the angle p/q itself: (cos, sin)(theta / 2) is in Q(zeta8) only for theta = 0
+            if unrat(p["r"]) != 0:
+                raise NotInField(p["r"])
+            return [1, 0]
         if "pi" in p:
             return _pi_halfangle(p["pi"])
         if "x" in p:
@@ -900,6 +1147,8 @@ def _payload(case, table):
             chain.append(["replace", _model_params(m[1])])
         elif m[0] == "power":
             chain.append(["power", rat(unrat(m[1]))])
+        elif m[0] == "controlled":
+            chain.append(["controlled", m[1]])
         else:
             chain.append(list(m))
     return {"base": b, "chain": chain, "table": table}
@@ -1036,7 +1285,11 @@ def _norm_params(ps):
         return ps
     out = []
     for p in ps:
-        if isinstance(p, dict) and ("c" in p or "a" in p):
+        if isinstance(p, dict) and "ty" in p and "a" in p:
+            out.append({"a": [_cyc([p["a"][0], 0, 0, 0]), _cyc([p["a"][1], 0, 0, 0])]})
+        elif isinstance(p, dict) and "r" in p:
+            out.append({"a": [_cyc([1, 0, 0, 0]), _cyc([0, 0, 0, 0])]} if unrat(p["r"]) == 0 else p)
+        elif isinstance(p, dict) and ("c" in p or "a" in p):
             out.append(p)
         elif isinstance(p, dict) and "pi" in p:
             try:
@@ -1298,12 +1551,30 @@ def _vary_param_list(rng, bspec, params):
     """the same parameter list with exactly one entry changed (or two entries exchanged)"""
     if not params:
         return None
-    ps = [p if isinstance(p, dict) else list(p) for p in params]
+    ps = [dict(p) if isinstance(p, dict) else list(p) for p in params]
     j = rng.randrange(len(ps))
     if "gate" in bspec:
         if bspec["gate"] == "Delay":
             ps[j] = [rat(unrat(ps[j][0]) + Fraction(rng.randrange(1, 8), 4)), 0]
             return ps
+        if any(isinstance(q, dict) for q in ps):
+            # typed / exact-multiple-of-pi angles: the value inside changes, the type that carries it stays
+            q = ps[j]
+            if isinstance(q, dict) and "a" in q:
+                inner = _vary_param_list(rng, bspec, [q["a"]])
+                if inner is None:
+                    return None
+                ps[j] = dict(q, a=inner[0])
+            elif isinstance(q, dict) and "r" in q:
+                ps[j] = dict(q, r=rat(rng.choice([-unrat(q["r"]), unrat(q["r"]) + 1, unrat(q["r"]) - 2, Fraction(0)])))
+            elif isinstance(q, dict):
+                ps[j] = {"pi": rat(unrat(q["pi"]) + rng.choice([Fraction(1, 2), 1, Fraction(-1, 4), 2]))}
+            else:
+                inner = _vary_param_list(rng, bspec, [q])
+                if inner is None:
+                    return None
+                ps[j] = inner[0]
+            return ps if ps != [dict(p) if isinstance(p, dict) else list(p) for p in params] else None
         r = rng.random()
         if r < 0.25:
             ps[j] = [ps[j][0], rat(-unrat(ps[j][1]))]          # theta -> -theta
@@ -1322,8 +1593,8 @@ def _vary_param_list(rng, bspec, params):
             ps[j] = {"x": rng.choice([n for n in ("m1^(3/4)", "sqrt(2)/2", "m1^(-1/4)", "root(-4,4)") if n != ps[j]["x"]])}
             return ps
         v = ps[j]["v"]
-        ps[j] = {"v": [rat(unrat(v[0]) + rng.choice([-1, 1, Fraction(1, 2)])), v[1]]} if rng.random() < 0.5 else \
-            {"v": [v[0], rat(unrat(v[1]) + rng.choice([-1, 1, Fraction(1, 4)]))]}
+        ps[j] = dict(ps[j], v=[rat(unrat(v[0]) + rng.choice([-1, 1, Fraction(1, 2)])), v[1]]) if rng.random() < 0.5 else \
+            dict(ps[j], v=[v[0], rat(unrat(v[1]) + rng.choice([-1, 1, Fraction(1, 4)]))])
     return ps if ps != params else None
 
 
@@ -1377,8 +1648,16 @@ def _v_near(rng, run, fast):
     b = run["base"]
     if "gate" not in b or not b["params"] or b["gate"] == "Delay":
         return None
-    ps = [list(p) for p in b["params"]]
+    ps = [dict(p) if isinstance(p, dict) else list(p) for p in b["params"]]
     j = rng.randrange(len(ps))
+    if isinstance(ps[j], dict):
+        if "a" not in ps[j]:
+            return None
+        near = _near_angle(ps[j]["a"])
+        if near is None:
+            return None
+        ps[j] = dict(ps[j], a=near)
+        return dict(run, base=dict(b, params=ps))
     near = _near_angle(ps[j])
     if near is None:
         return None
@@ -1430,22 +1709,87 @@ def _v_struct(rng, run, fast):
     return dict(run, chain=ch)
 
 
-def _v_exptype(rng, run, fast):
-    """an integer exponent handed over as a Python float (2 -> 2.0): same gate, same matrix expected"""
-    idx = [i for i, m in enumerate(run["chain"]) if m[0] == "power" and unrat(m[1]).denominator == 1 and len(m) == 2]
-    if not idx:
+def _retype_params(rng, bspec, params, exact_only=False):
+    """the same parameter VALUES with ONE of them carried by another number type (None when no entry has another rung)"""
+    if not params or bspec.get("gate") == "Delay":
         return None
-    i = rng.choice(idx)
-    return dict(run, chain=run["chain"][:i] + [run["chain"][i] + ["f"]] + run["chain"][i + 1:])
+    ps = [dict(p) if isinstance(p, dict) else list(p) for p in params]
+    idx = list(range(len(ps)))
+    rng.shuffle(idx)
+    for j in idx:
+        q = ps[j]
+        if "gate" in bspec:
+            if isinstance(q, list):
+                ps[j] = {"ty": "sF", "a": q}
+            elif "a" in q:
+                ps[j] = list(q["a"])
+            elif "r" in q:
+                r = unrat(q["r"])
+                opts = [t for t in BUILTIN_R_TAGS if t != q["ty"] and (r.denominator == 1 or t not in ("i", "sI"))]
+                ps[j] = dict(q, ty=rng.choice(opts))
+            else:
+                continue
+            return ps
+        if "v" not in q:
+            continue
+        cur = eff_custom_tag(q)
+        pool = CUSTOM_V_TAGS_EXACT if exact_only else CUSTOM_V_TAGS_REAL
+        opts = [t for t in pool + [None] if eff_custom_tag(dict(q, ty=t) if t else {"v": q["v"]}) == t and t != cur]
+        if not opts:
+            continue
+        t = rng.choice(opts)
+        ps[j] = dict({"v": q["v"]}, **({"ty": t} if t else {}))
+        return ps
+    return None
 
 
-VARIATIONS = [_v_name, _v_name, _v_params, _v_near, _v_near, _v_arg, _v_arg, _v_struct, _v_exptype]
+def _retype_mod(rng, m):
+    """the same power / controlled modifier with its argument carried by another number type"""
+    cur = mod_tag(m)
+    if m[0] == "power":
+        pool = EXP_TAGS_WHOLE if unrat(m[1]).denominator == 1 else EXP_TAGS_FRAC
+        opts = [t for t in pool if eff_exp_tag(m[1], t) == t and t != cur]
+    elif m[0] == "controlled" and m[1] >= 1:
+        opts = [t for t in CTL_TAGS if eff_ctl_tag(m[1], t) == t and t != cur]
+    else:
+        return None
+    return [m[0], m[1], rng.choice(opts)] if opts else None
+
+
+def _v_numtype(rng, run, fast):
+    """ONE numeric argument (an exponent, a control count, a parameter of the base gate or of a replace_params) handed over
+    in another number type -- 2 -> 2.0 / Fraction(2) / sympy.Integer(2) / numpy.int32(2); 1/3 -> Fraction(1, 3) /
+    sympy.Rational(1, 3) / sympy.Float(1/3): the same value, so the same gate and the same matrix are expected"""
+    sites = [("mod", i) for i, m in enumerate(run["chain"]) if m[0] in ("power", "controlled")] * 2
+    sites += [("rep", i) for i, m in enumerate(run["chain"]) if m[0] == "replace" and m[1]]
+    if run["base"]["params"]:
+        sites.append(("base", -1))
+    rng.shuffle(sites)
+    for what, i in sites:
+        if what == "mod":
+            m = _retype_mod(rng, run["chain"][i])
+            if m is not None:
+                return dict(run, chain=run["chain"][:i] + [m] + run["chain"][i + 1:])
+        elif what == "rep":
+            ps = _retype_params(rng, run["base"], run["chain"][i][1], exact_only=_has_ext(run))
+            if ps is not None:
+                return dict(run, chain=run["chain"][:i] + [["replace", ps]] + run["chain"][i + 1:])
+        else:
+            ps = _retype_params(rng, run["base"], run["base"]["params"], exact_only=_has_ext(run))
+            if ps is not None:
+                return dict(run, base=dict(run["base"], params=ps))
+    return None
+
+
+VARIATIONS = [_v_name, _v_name, _v_params, _v_near, _v_near, _v_arg, _v_arg, _v_struct, _v_numtype, _v_numtype]
 
 
 def _session(rng, seed, fast, tier, n_variants):
     """[seed run, siblings that differ from it in exactly one component ..., seed run again], all in one process on shared
     prototypes / gate definitions (and, per `share`, on the same gate objects)"""
     max_total = 4
+    if rng.random() < 0.35:
+        seed = _retag_run(rng, seed, 0.5, 0.3)  # the siblings inherit the number types of the seed run's arguments
     variants, tried = [], 0
     ops = list(VARIATIONS)
     forced = [_v_name, rng.choice([_v_params, _v_near, _v_arg])]  # every session has a same-shape sibling with another gate
@@ -1569,6 +1913,194 @@ def _exotic_cases(rng, tier, n_pow, n_ctl, n_root):
         pre = rng.choice([[], [], [["dagger"]], [["power", 2]]])
         post = rng.choice([[], [], [["controlled", 1]], [["power", q if q <= 64 else 2]], [["replace", _params_for(rng, base, 0.0)]]])
         out.append({"kind": "exotic", "base": base, "chain": pre + [["power", f"1/{q}"]] + post, "tier": tier})
+    return out
+
+
+# ------------------------------------------------------------------ the number type of every numeric argument
+def _retag_run(rng, run, p_mod=0.5, p_par=0.3):
+    """the same run with its numeric arguments handed over in other rungs of their type ladders (each exponent / control
+    count with probability p_mod, each parameter list with p_par).  Values do not change, so neither does anything the
+    oracle or the model expects."""
+    ext = _has_ext(run)
+    chain = []
+    for m in run["chain"]:
+        m2 = None
+        if m[0] in ("power", "controlled") and len(m) == 2 and rng.random() < p_mod:
+            m2 = _retype_mod(rng, m)
+        elif m[0] == "replace" and rng.random() < p_par:
+            ps = _retype_params(rng, run["base"], m[1], exact_only=ext)
+            m2 = ["replace", ps] if ps is not None else None
+        chain.append(m2 if m2 is not None else list(m))
+    base = run["base"]
+    if base["params"] and rng.random() < p_par:
+        ps = _retype_params(rng, base, base["params"], exact_only=ext)
+        if ps is not None:
+            base = dict(base, params=ps)
+    return dict(run, base=base, chain=chain)
+
+
+# routes: which METHOD of which wrapper class receives (or passes on) the typed argument.  E = the typed exponent, E2 = a second
+# typed whole exponent, K / K2 = typed control counts, P = new parameters, W = whole exponents only (exp involved)
+# (every prefix of a chain is judged, so a route that is a prefix of another one is not listed: gate.power, power.dagger,
+# exp.power, gate.controlled are the first steps of the routes below)
+EXP_ROUTES = [
+    ("dagger.power", [["dagger"], "E"], "nonherm"), ("controlled.power", [["controlled", 1], "E"], ""),
+    ("power.controlled", ["E", ["controlled", 1]], ""),
+    ("power.power", ["E", "E2"], ""), ("power-of-power", [["power", 2], "E"], ""), ("power.replace", ["E", ["replace", "P"]], "params"),
+    ("controlled.dagger.power", [["controlled", 1], ["dagger"], "E"], "nonherm"),
+    ("power.dagger.controlled.replace", ["E", ["dagger"], ["controlled", 2], ["replace", "P"]], "params nonherm"),
+    ("power.power.dagger", [["power", -1], "E", ["dagger"]], "nonherm"),
+    ("power.exp", ["E", ["exp"]], "W"), ("exp.power.controlled", [["exp"], "E", ["controlled", 1]], "W"),
+]
+CTL_ROUTES = [
+    ("controlled.controlled", ["K", "K2"], ""), ("dagger.controlled", [["dagger"], "K"], "nonherm"),
+    ("power.controlled", [["power", -2], "K"], ""), ("root.controlled", [["power", "1/2"], "K"], ""), ("exp.controlled", [["exp"], "K"], "W"),
+    ("controlled.dagger", ["K", ["dagger"]], "nonherm"), ("controlled.power", ["K", ["power", 3]], ""),
+    ("controlled.replace", ["K", ["replace", "P"]], "params"), ("controlled.exp", ["K1", ["exp"]], "W"),
+]
+PAR_ROUTES = [
+    ("dagger.replace", [["dagger"], ["replace", "P"]]), ("controlled.replace", [["controlled", 1], ["replace", "P"]]),
+    ("power.replace", [["power", -2], ["replace", "P"]]), ("exp.replace", [["exp"], ["replace", "P"]]),
+    ("replace.dagger", [["replace", "P"], ["dagger"]]), ("base.power.controlled", [["power", 2], ["controlled", 1]]),
+    ("dagger.controlled.power.replace", [["dagger"], ["controlled", 1], ["power", 2], ["replace", "P"]]),
+    ("base.exp.dagger", [["exp"], ["dagger"]]), ("root.replace", [["power", "1/2"], ["replace", "P"]]),
+]
+NONHERM1 = ["S", "T", "SX", "RZ", "PHASE", "RX", "RY"]
+WHOLE_LADDER = [2, -1, 0, -2, 3, 1, -3, 5]
+ROOT_LADDER = [2, 3, 4, 5, 8]
+
+
+def _nt_base(rng, flags, ext):
+    """a cheap 1-qubit base for the number-type stream: built-ins on which sympy's exp (ext == "exp") / roots (ext == "root")
+    return quickly, or an invertible triangular custom gate"""
+    params = "params" in flags
+    if ext == "exp":
+        pool = EXP1 if params else (EXP0[:6] + EXP1)
+    else:
+        pool = [n for n in (FAST0[:7] + FAST1[:5]) if circ.BUILTIN_QUBITS[n] == 1]
+        if params:
+            pool = [n for n in pool if circ.BUILTIN_PARAMS[n] > 0]
+    if "nonherm" in flags:
+        pool = [n for n in pool if n in NONHERM1] or ["RY"]
+    if rng.random() < 0.25:
+        _counter[0] += 1
+        syms = 1 if params else rng.choice([0, 1])
+        b = {"custom": f"nt{_counter[0]}", "rows": _diagish_rows(rng, syms), "nsyms": syms}
+    else:
+        b = {"gate": rng.choice(pool)}
+    b["params"] = _params_for(rng, b, 0.0)
+    return b
+
+
+def _typed_params(rng, bspec, tag):
+    """a fresh parameter list for bspec in which ONE entry is carried by the number type `tag` (built-in: "a:sF" = float value
+    as sympy.Float, "r:<tag>" = the angle p/q itself in that type; custom: a real / complex value in that type)"""
+    ps = _params_for(rng, bspec, 0.0)
+    if not ps:
+        return ps
+    j = rng.randrange(len(ps))
+    if "gate" in bspec:
+        if tag == "a:sF":
+            ps[j] = {"ty": "sF", "a": ps[j]}
+        else:
+            t = tag.split(":")[1]
+            r = Fraction(rng.choice([-3, -2, -1, 0, 1, 2, 3, 4]), 1 if t in ("i", "sI") else rng.choice([1, 2, 3, 4, 5, 8]))
+            ps[j] = {"ty": t, "r": rat(r)}
+        return ps
+    whole = tag in ("i", "sI") or tag in _NP_RANGE
+    re_ = Fraction(rng.choice([-3, -2, -1, 1, 2, 3]), 1 if whole else rng.choice([1, 2, 4]))
+    im_ = Fraction(rng.choice([-2, -1, 1, 3]), rng.choice([1, 2, 4])) if (tag in ("c", "sF") and rng.random() < 0.6) else Fraction(0)
+    ps[j] = {"v": [rat(re_), rat(im_)], "ty": tag}
+    return ps
+
+
+def _numtype_cases(rng, tier, full=False):
+    """every rung of every type ladder on every route of the modifier API, each judged by the ordinary sentences: the typed
+    argument as exponent (whole: negative, zero, positive; unit fractions), as control count, as parameter (of the base gate and
+    of replace_params), on plain gates and under nesting.  quick: the numpy integer types share one column (rotating), so each
+    run holds every (route, type family) cell once; thorough (`full`): every numpy type has its own column and two values."""
+    out = []
+    ctr = [rng.randrange(1000)]
+
+    def nxt(seq):
+        ctr[0] += 1
+        return seq[ctr[0] % len(seq)]
+
+    def fill(route, flags, subst, ext, max_total=4):
+        for _ in range(20):
+            base = _nt_base(rng, flags, ext)
+            chain = []
+            for m in route:
+                if isinstance(m, str):
+                    chain.append(list(subst[m]))
+                elif m[0] == "replace":
+                    chain.append(["replace", _params_for(rng, base, 0.0)])
+                else:
+                    chain.append(list(m))
+            run = {"base": base, "chain": chain}
+            if _run_ok(run, max_total):
+                return run
+        return None
+
+    def add(kind_route, run):
+        if run is not None:
+            out.append({"kind": "numtype", "route": kind_route, "base": run["base"], "chain": run["chain"], "tier": tier})
+
+    np_cols = NP_INT_TAGS if full else [None]
+    # --- exponents: whole values
+    for name, route, flags in EXP_ROUTES:
+        ext = "exp" if "W" in flags else None
+        for fam in ["f", "F", "sI", "sF"] + np_cols:
+            for _ in range(2 if full else 1):
+                tag = fam if fam is not None else nxt(NP_INT_TAGS)
+                e = nxt(WHOLE_LADDER)
+                if tag == "nu8":
+                    e = abs(e)
+                if ext and name != "power.exp":
+                    e = max(-2, min(e, 3))  # integer powers of an exp: sympy expands them; keep the exponent small
+                e2 = ["power", nxt([2, -1, 3]), nxt(["F", "sI", "sF", "f"] + NP_INT_TAGS)]
+                add("exponent:" + name, fill(route, flags, {"E": ["power", e, tag], "E2": e2}, ext))
+    # --- exponents: unit fractions (only routes without exp; the root is taken while the gate has <= 2 qubits)
+    for name, route, flags in EXP_ROUTES:
+        if "W" in flags:
+            continue
+        for tag in ["F", "sR", "sF"] + (["f"] if full else []):
+            q = nxt(ROOT_LADDER)
+            e2 = ["power", nxt([2, 3, q]), nxt(["F", "sI", "sF", "f"] + NP_INT_TAGS)]
+            add("root:" + name, fill(route, flags, {"E": ["power", f"1/{q}", tag], "E2": e2}, "root"))
+    # --- control counts
+    for name, route, flags in CTL_ROUTES:
+        ext = "exp" if "W" in flags else ("root" if name == "root.controlled" else None)
+        for fam in ["b", "sI"] + np_cols:
+            tag = fam if fam is not None else nxt(NP_INT_TAGS)
+            k = 1 if tag == "b" else nxt([1, 2, 1, 3, 2])
+            if ext:
+                k = min(k, 2)
+            k2 = ["controlled", nxt([1, 2]), nxt(["b", "sI"] + NP_INT_TAGS)]
+            add("count:" + name, fill(route, flags, {"K": ["controlled", k, tag], "K1": ["controlled", 1, tag], "K2": k2}, ext, 6))
+    # --- parameters: of the base gate and of replace_params, under every wrapper's replace_params
+    ptags = ["a:sF"] + ["r:" + t for t in BUILTIN_R_TAGS] + CUSTOM_V_TAGS_REAL
+    for tag in ptags + [nxt(ptags) for _ in range(5)]:
+        for _ in range(3 if full else 1):
+            name, route = nxt(PAR_ROUTES)
+            ext = any(m == ["exp"] or (m[0] == "power" and isinstance(m[1], str)) for m in route if not isinstance(m, str))
+            custom = ":" not in tag
+            if custom and ext and tag not in CUSTOM_V_TAGS_EXACT:
+                name, route = PAR_ROUTES[0]
+                ext = False
+            for _ in range(20):
+                if custom:
+                    _counter[0] += 1
+                    base = {"custom": f"ntp{_counter[0]}", "rows": _diagish_rows(rng, 1), "nsyms": 1}
+                else:
+                    base = {"gate": rng.choice(EXP1 if ext else ["RZ", "PHASE", "RX", "RY", "GPi", "GPi2", "U3", "RH"])}
+                typed_base = rng.random() < 0.5 or not any(m[0] == "replace" for m in route)
+                base["params"] = _typed_params(rng, base, tag) if typed_base else _params_for(rng, base, 0.0)
+                chain = [["replace", _typed_params(rng, base, tag)] if m[0] == "replace" else list(m) for m in route]
+                run = {"base": base, "chain": chain}
+                if _run_ok(run, 4):
+                    add("parameter:" + name, run)
+                    break
     return out
 
 
@@ -1962,6 +2494,16 @@ def _corpus():
         {"kind": "exotic", "base": s, "chain": [["power", "1/257"], ["power", 3]]},
         {"kind": "exotic", "base": {"gate": "ISWAP", "params": []}, "chain": [["dagger"], ["power", "1/1000"]]},
         {"kind": "exotic", "base": {"gate": "CNOT", "params": []}, "chain": [["power", "1/5"], ["replace", []]]},
+        # --- the number type that carries a numeric argument: unit fraction as Fraction / sympy.Rational, whole exponent as
+        # sympy.Integer / numpy scalar / whole-valued Fraction, counts as numpy int / bool, parameters as sympy.Float / Fraction
+        {"kind": "numtype", "route": "corpus", "base": x, "chain": [["power", "1/3", "F"]]},
+        {"kind": "numtype", "route": "corpus", "base": {"gate": "PHASE", "params": [["3/5", "4/5"]]},
+         "chain": [["controlled", 1, "n64"], ["power", "1/2", "sR"], ["dagger"]]},
+        {"kind": "numtype", "route": "corpus", "base": t, "chain": [["dagger"], ["power", -2, "sI"], ["controlled", 1, "b"], ["power", 3, "F"]]},
+        {"kind": "numtype", "route": "corpus", "base": {"gate": "RX", "params": [{"ty": "sF", "a": ["4/5", "3/5"]}]},
+         "chain": [["power", 2, "nu8"], ["dagger"], ["replace", [{"ty": "F", "r": "3/4"}]], ["controlled", 2, "sI"]]},
+        {"kind": "numtype", "route": "corpus", "base": dict(cg, params=[{"v": ["1/2", 0], "ty": "F"}]),
+         "chain": [["power", -1, "sF"], ["controlled", 1, "n8"], ["replace", [{"v": ["-3/2", "1/4"], "ty": "c"}]], ["dagger"]]},
         {"kind": "malformed", "base": x, "chain": [["controlled", 0]]},
         {"kind": "malformed", "base": x, "chain": [["controlled", 2], ["controlled", -1], ["dagger"]]},
         {"kind": "malformed", "base": rx, "chain": [["dagger"], ["replace", []], ["controlled", 1]]},
@@ -2020,6 +2562,15 @@ def _generate(rng, tier):
     cases.extend(_syntax_cases(rng, tier, 240 if big else 60))
     # exotic but legal arguments
     cases.extend(_exotic_cases(rng, tier, *((100, 24, 40) if big else (24, 6, 12))))
+    # the NUMBER TYPE of every numeric argument: in all the streams above each exponent / control count / parameter list is,
+    # with some probability, handed over in another rung of its type ladder (sessions: see _session -- the seed run is
+    # retyped, the siblings inherit its types, and `_v_numtype` siblings differ from it in the type of ONE argument) ...
+    for c in cases:
+        if not is_session(c) and c["kind"] in ("chain", "special", "exotic"):
+            r = _retag_run(rng, c, 0.45, 0.25)
+            c["base"], c["chain"] = r["base"], r["chain"]
+    # ... and a stream that holds every (route of the modifier API, type) cell once
+    cases.extend(_numtype_cases(rng, tier, full=big))
     # malformed stream
     for _ in range(120 if big else 24):
         base = _random_base(rng, 2)
@@ -2046,12 +2597,57 @@ def _generate(rng, tier):
 def nontrivial(case):
     if is_session(case):
         return len(case["runs"]) >= 3 and all(len(r["chain"]) >= 1 for r in case["runs"])
-    return case["kind"] in ("chain", "special", "exotic", "syntax") and len(case["chain"]) >= 2
+    return case["kind"] in ("chain", "special", "exotic", "syntax", "numtype") and len(case["chain"]) >= 2
+
+
+_TAG_NAME = {"i": "int", "b": "bool", "f": "float", "F": "fractions.Fraction", "sI": "sympy.Integer", "sR": "sympy.Rational",
+             "sF": "sympy.Float", "c": "complex", "n64": "numpy.int64", "n32": "numpy.int32", "n16": "numpy.int16", "n8": "numpy.int8",
+             "nu8": "numpy.uint8"}
+
+
+def _param_type_name(bspec, p):
+    if "gate" in bspec:
+        if isinstance(p, dict):
+            if "pi" in p:
+                return "builtin: sympy multiple of pi"
+            if "a" in p:
+                return "builtin: " + _TAG_NAME[p["ty"]] + " (float value)"
+            return "builtin: " + _TAG_NAME[p["ty"]] + " (angle p/q)"
+        return "builtin: float"
+    if "x" in p:
+        return "custom: sympy number expression"
+    t = eff_custom_tag(p)
+    return "custom: " + (_TAG_NAME[t] if t else "sympy Rational + I*Rational")
 
 
 def distribution(cases, outs):
     kinds, depth, nqh = {}, {}, {}
     orders, shares = {}, {}
+    exp_types, ctl_types, par_types, routes, nest = {}, {}, {}, {}, {}
+
+    def bump(d, k):
+        d[k] = d.get(k, 0) + 1
+
+    for c in cases:
+        if c.get("kind") == "numtype":
+            bump(routes, c.get("route", "?"))
+        for run in case_runs(c):
+            for p in run["base"]["params"]:
+                bump(par_types, _param_type_name(run["base"], p) + " @base")
+            for j, m in enumerate(run["chain"]):
+                if m[0] == "power":
+                    f = unrat(m[1])
+                    cls = "unit fraction" if f.denominator != 1 else ("negative" if f < 0 else "zero" if f == 0 else "positive")
+                    bump(exp_types, f"{_TAG_NAME[mod_tag(m)]}: {cls}")
+                    if mod_tag(m) not in ("i",) and not (mod_tag(m) == "f" and f.denominator != 1):
+                        # where the typed exponent sits: what it is applied to / what is applied to it next
+                        bump(nest, f"typed power after {run['chain'][j - 1][0] if j else 'base'}, before "
+                                   f"{run['chain'][j + 1][0] if j + 1 < len(run['chain']) else 'end'}")
+                elif m[0] == "controlled":
+                    bump(ctl_types, _TAG_NAME[mod_tag(m)] if m[1] >= 1 else "int (count < 1, malformed)")
+                elif m[0] == "replace":
+                    for p in m[1]:
+                        bump(par_types, _param_type_name(run["base"], p) + " @replace_params")
     timeouts = exterr = mats = rereads = runs_total = 0
     for c, o in zip(cases, outs):
         runs = case_runs(c)
@@ -2064,7 +2660,7 @@ def distribution(cases, outs):
                 shares[run.get("share", "none")] = shares.get(run.get("share", "none"), 0) + 1
             for m in run["chain"]:
                 k = m[0] if m[0] != "power" else ("power-int" if unrat(m[1]).denominator == 1 else "power-frac")
-                if m[0] == "power" and len(m) > 2:
+                if m[0] == "power" and unrat(m[1]).denominator == 1 and mod_tag(m) == "f":
                     k += "-as-float"
                 kinds[k] = kinds.get(k, 0) + 1
         for ro in routs:
@@ -2079,7 +2675,9 @@ def distribution(cases, outs):
                     exterr += 1
                 if isinstance(st.get("m2"), list):
                     rereads += 1
-    return {"modifier_kinds": kinds, "chain_depth": depth, "matrices_by_num_qubits": nqh, "matrices_evaluated": mats,
+    return {"exponent_number_types": exp_types, "control_count_number_types": ctl_types, "parameter_number_types": par_types,
+            "typed_exponent_positions": nest, "numtype_routes": routes,
+            "modifier_kinds": kinds, "chain_depth": depth, "matrices_by_num_qubits": nqh, "matrices_evaluated": mats,
             "runs_total": runs_total, "session_run_order": orders, "session_object_sharing": shares,
             "matrices_read_twice_after_editing_first_answer": rereads, "oracle_only_cases_value_outside_Q_zeta8": _ORACLE_ONLY[0], "matrix_property_calls": _EVALS[0],
             "sympy_timeouts": timeouts, "sympy_external_failures": exterr,
